@@ -3,8 +3,9 @@
    KLex   one line through the real lexer entry point (verifhooks.LexLine) under recover();
           the case is C02's [lexcase] and the comparison C02's [check_case]: the model's outcome
           (metric / event / reject / PANIC) must be the implementation's, field by field.
-   KDgram one whole datagram through a real DatagramParser; compared: panic or the three
-          counters parser.metrics_received / events_received / bad_lines_seen.
+   KDgram a sequence of whole datagrams (one batch or successive batches) through a real
+          DatagramParser; compared: panic or the three counters parser.metrics_received /
+          events_received / bad_lines_seen after the last one.
    KHttp  one request to the real ingestion router; compared: the status the client saw
           (None = the connection died without a status) and the number of dispatches, against
           the trace of Model/WireStatus.handle under the library outcomes the harness computed
@@ -15,7 +16,7 @@ Local Open Scope N_scope.
 
 Inductive c03case :=
 | KLex (c : lexcase)
-| KDgram (ns : str) (msg : str) (table : list (str * pfres)) (obs : dresult)
+| KDgram (ns : str) (msgs : list str) (table : list (str * pfres)) (obs : dresult)
 | KHttp (ep : endpoint) (enc : str) (o : wire_oracle) (status : option N) (ndispatch : N).
 
 Definition dresult_eqb (a b : dresult) : bool :=
@@ -28,8 +29,8 @@ Definition dresult_eqb (a b : dresult) : bool :=
 Definition is_miss (o : outcome) : bool :=
   match o with OReject EOracleMiss => true | _ => false end.
 
-Definition dgram_model (ns msg : str) (table : list (str * pfres)) : dresult :=
-  parse_datagram (oracle table) ns msg.
+Definition dgram_model (ns : str) (msgs : list str) (table : list (str * pfres)) : dresult :=
+  parse_stream (oracle table) ns msgs 0 0 0.
 
 (* what the model computed for a case, for the failure report *)
 Inductive explanation :=
@@ -37,14 +38,14 @@ Inductive explanation :=
 | XDgram (r : dresult) (oracle_misses : N)
 | XHttp (trace : list action).
 
-Definition misses (ns msg : str) (table : list (str * pfres)) : N :=
-  N.of_nat (length (filter (fun l => is_miss (lex (oracle table) ns l)) (lines msg))).
+Definition misses (ns : str) (msgs : list str) (table : list (str * pfres)) : N :=
+  N.of_nat (length (filter (fun l => is_miss (lex (oracle table) ns l)) (flat_map lines msgs))).
 
 Definition check_case (c : c03case) : bool :=
   match c with
   | KLex lc => C02.check_case lc
-  | KDgram ns msg table obs =>
-      dresult_eqb obs (dgram_model ns msg table) && (misses ns msg table =? 0)
+  | KDgram ns msgs table obs =>
+      dresult_eqb obs (dgram_model ns msgs table) && (misses ns msgs table =? 0)
   | KHttp ep enc o status nd =>
       let t := handle ep enc o in
       match status with
@@ -56,7 +57,7 @@ Definition check_case (c : c03case) : bool :=
 Definition explain_case (c : c03case) : explanation :=
   match c with
   | KLex lc => XLex (C02.model_of lc)
-  | KDgram ns msg table _ => XDgram (dgram_model ns msg table) (misses ns msg table)
+  | KDgram ns msgs table _ => XDgram (dgram_model ns msgs table) (misses ns msgs table)
   | KHttp ep enc o _ _ => XHttp (handle ep enc o)
   end.
 
